@@ -264,11 +264,11 @@ def rename_variants(src, targets, limit=6):
                         x.id not in params and x.id not in locs:
                     locs.append(x.id)
             # a local whose name also occurs inside a string constant of the
-            # function (numexpr / eval expressions look names up by their text)
+            # module (numexpr / eval expressions look names up by their text)
             # is not renamed: that edit would change behaviour
             import re as _re
             intext = set()
-            for x in ast.walk(node):
+            for x in ast.walk(tree0):
                 if isinstance(x, ast.Constant) and isinstance(x.value, str):
                     intext.update(_re.findall(r'[A-Za-z_]\w*', x.value))
             locs = [l for l in locs if l not in intext]
